@@ -1101,6 +1101,7 @@ def check_zip(ctx):
 
 
 def check(ctx):
+    ctx.instances_floor("C03-a/isinstance", K.check_isinstance_dispatch(ctx, "C03-a", ["lena.core.split", "lena.core.check_sequence_type", "lena.core.sequence", "lena.core.source", "lena.core.fill_compute_seq", "lena.core.fill_request_seq", "lena.core.fill_seq", "lena.core.adapters", "lena.core.meta", "lena.core.lena_sequence"], "a subclass of Source, Sequence, FillComputeSeq ..."), 10, "isinstance tests in lena.core")
     kinds = check_classifier(ctx)
     if kinds is None:
         # the classifier was not understood (reported UNKNOWN): the dispatch tables cannot be compared with it;
